@@ -238,6 +238,7 @@ type op struct {
 	enabled func() bool
 	exec    func()
 	sleeper bool
+	recvOn  []*object // channels a blocked receive is waiting on (lets a select-send find its partner)
 }
 
 type object struct {
@@ -284,24 +285,24 @@ type offer struct {
 
 // Sched is one controlled execution.
 type Sched struct {
-	chooser  Chooser
-	threads  []*thread
-	cur      *thread
-	objs     map[uintptr]*object
-	nextObj  int
-	steps    int
-	maxSteps int
-	events   []Event
-	finished chan struct{}
-	aborted  bool
-	abortBy  *thread
-	status   string
-	detail   string
-	maxEn    int
-	spurious   int    // consecutive spurious wake-ups without progress
-	spuriousAt uint64 // value of changes when the current run of spurious wake-ups started
-	changes    uint64 // counts state changes of modelled objects, thread starts/ends and events
-	Trace    func(string) // optional step tracer
+	chooser    Chooser
+	threads    []*thread
+	cur        *thread
+	objs       map[uintptr]*object
+	nextObj    int
+	steps      int
+	maxSteps   int
+	events     []Event
+	finished   chan struct{}
+	aborted    bool
+	abortBy    *thread
+	status     string
+	detail     string
+	maxEn      int
+	spurious   int          // consecutive spurious wake-ups without progress
+	spuriousAt uint64       // value of changes when the current run of spurious wake-ups started
+	changes    uint64       // counts state changes of modelled objects, thread starts/ends and events
+	Trace      func(string) // optional step tracer
 }
 
 // Config for Run.
@@ -823,6 +824,7 @@ func Recv2[T any](ch <-chan T) (T, bool) {
 		desc:    fmt.Sprintf("recv c%d", o.id),
 		enabled: o.recvReady,
 		exec:    func() { rv, rok = s.doRecv(t, o) },
+		recvOn:  []*object{o},
 	})
 	if !rok || rv == nil {
 		if rok {
@@ -865,13 +867,18 @@ func Close[T any](ch chan<- T) {
 	})
 }
 
-// Case is one receive case of a rewritten select statement.
+// Case is one case of a rewritten select statement.
 type Case struct {
-	ch any
+	ch   any
+	send bool
+	val  any
 }
 
 // RecvCase builds a receive case.
 func RecvCase[T any](ch <-chan T) Case { return Case{ch: ch} }
+
+// SendCase builds a send case.
+func SendCase[T any](ch chan<- T, v T) Case { return Case{ch: ch, send: true, val: v} }
 
 // Sel is the result of Select.
 type Sel struct {
@@ -880,13 +887,47 @@ type Sel struct {
 	ok bool
 }
 
-// Select replaces a select statement with receive cases only.
+func (s *Sched) hasWaitingReceiver(o *object, self *thread) bool {
+	for _, t := range s.threads {
+		if t == self || t.done || t.pending == nil {
+			continue
+		}
+		for _, r := range t.pending.recvOn {
+			if r == o {
+				return true
+			}
+		}
+	}
+	return false
+}
+
+func (s *Sched) caseReady(c Case, o *object, self *thread) bool {
+	if !c.send {
+		return o.recvReady()
+	}
+	if o.external {
+		return false
+	}
+	if o.closed {
+		return true // proceeds and panics, as in Go
+	}
+	if o.cap > 0 {
+		return len(o.buf) < o.cap
+	}
+	return s.hasWaitingReceiver(o, self)
+}
+
+// Select replaces a select statement.
 func Select(hasDefault bool, cases ...Case) *Sel {
 	s := active
 	if s == nil {
 		sc := make([]reflect.SelectCase, 0, len(cases)+1)
 		for _, c := range cases {
-			sc = append(sc, reflect.SelectCase{Dir: reflect.SelectRecv, Chan: reflect.ValueOf(c.ch)})
+			if c.send {
+				sc = append(sc, reflect.SelectCase{Dir: reflect.SelectSend, Chan: reflect.ValueOf(c.ch), Send: reflect.ValueOf(c.val)})
+			} else {
+				sc = append(sc, reflect.SelectCase{Dir: reflect.SelectRecv, Chan: reflect.ValueOf(c.ch)})
+			}
 		}
 		if hasDefault {
 			sc = append(sc, reflect.SelectCase{Dir: reflect.SelectDefault})
@@ -903,18 +944,24 @@ func Select(hasDefault bool, cases ...Case) *Sel {
 	}
 	t := s.cur
 	objs := make([]*object, len(cases))
+	var recvOn []*object
 	for i, c := range cases {
 		objs[i] = s.chanObj(c.ch)
+		if !c.send && !hasDefault {
+			recvOn = append(recvOn, objs[i])
+		}
 	}
 	res := &Sel{I: -1}
+	sendClosed := false
 	s.point(&op{
-		desc: fmt.Sprintf("select/%d default=%v", len(cases), hasDefault),
+		desc:   fmt.Sprintf("select/%d default=%v", len(cases), hasDefault),
+		recvOn: recvOn,
 		enabled: func() bool {
 			if hasDefault {
 				return true
 			}
-			for _, o := range objs {
-				if o.recvReady() {
+			for i, o := range objs {
+				if s.caseReady(cases[i], o, t) {
 					return true
 				}
 			}
@@ -923,7 +970,7 @@ func Select(hasDefault bool, cases ...Case) *Sel {
 		exec: func() {
 			var ready []int
 			for i, o := range objs {
-				if o.recvReady() {
+				if s.caseReady(cases[i], o, t) {
 					ready = append(ready, i)
 				}
 			}
@@ -939,9 +986,32 @@ func Select(hasDefault bool, cases ...Case) *Sel {
 				pick = s.chooser.Choose(ClassSched, len(ready), "select")
 			}
 			res.I = ready[pick]
-			res.v, res.ok = s.doRecv(t, objs[res.I])
+			o := objs[res.I]
+			if !cases[res.I].send {
+				res.v, res.ok = s.doRecv(t, o)
+				return
+			}
+			t.mutated = true
+			if o.closed {
+				sendClosed = true
+				return
+			}
+			o.bump()
+			if o.cap > 0 {
+				if k := o.sends - o.cap; k >= 0 && k < len(o.recvVCs) {
+					t.vc.join(o.recvVCs[k])
+				}
+				o.sends++
+				o.buf = append(o.buf, item{cases[res.I].val, t.vc.clone()})
+				return
+			}
+			// unbuffered: a receiver is parked on the channel, hand the value over
+			o.sendq = append(o.sendq, &offer{t: t, v: cases[res.I].val, vc: t.vc.clone()})
 		},
 	})
+	if sendClosed {
+		panic("send on closed channel")
+	}
 	return res
 }
 
